@@ -178,10 +178,27 @@ func (x *Exec) invoke(fr *Frame, st *State, recv *Value, m *types.Func, args []*
 }
 
 func (x *Exec) callStatic(fr *Frame, st *State, fn *ssa.Function, args, bind []*Value, resT types.Type, pos token.Pos) *Value {
+	r := x.callStatic0(fr, st, fn, args, bind, resT, pos)
+	// ghost: remember the results of tracked callees (ret(F, k) in contracts)
+	if r != nil && x.retCells != nil {
+		name := fn.String()
+		for _, k := range []string{name, funcDisplayName(fn), fn.Name()} {
+			if c, ok := x.retCells[k]; ok {
+				c.T = r.T
+				st.cells[c] = r
+				x.cellsW[c] = true
+			}
+		}
+	}
+	return r
+}
+
+func (x *Exec) callStatic0(fr *Frame, st *State, fn *ssa.Function, args, bind []*Value, resT types.Type, pos token.Pos) *Value {
 	name := fn.String()
 	if fn.Origin() != nil {
 		name = fn.Origin().String()
 	}
+	x.callSiteObligations(fr, st, fn, name, args, pos)
 	if r, ok := x.modelCall(fr, st, fn, name, args, resT, pos); ok {
 		return r
 	}
@@ -356,6 +373,9 @@ func (x *Exec) applyContract(fr *Frame, st *State, c *Contract, fn *ssa.Function
 		})
 		x.assumeTypeInv(res, st.guard)
 	}
+	if c.Trusted && res != nil {
+		x.assumeZeroOffsets(res)
+	}
 	post := &SpecEnv{x: x, vars: map[string]*Value{}, cur: st, old: pre, pkg: pkg}
 	for k, v := range vars {
 		post.vars[k] = v
@@ -528,8 +548,15 @@ func (x *Exec) evalClause(fr *Frame, c Clause, cur, old *State, extra map[string
 		vars[p.Name()] = fr.params[i]
 	}
 	for i, fv := range fr.fn.FreeVars {
-		_ = i
-		_ = fv
+		// captured variables are bound to their value at entry
+		v := fr.bind[i]
+		if v.K == KPtr {
+			if pt, ok := fv.Type().(*types.Pointer); ok {
+				vars[fv.Name()] = x.load(fr.entry, v.P, pt.Elem())
+				continue
+			}
+		}
+		vars[fv.Name()] = v
 	}
 	for k, v := range extra {
 		vars[k] = v
@@ -657,7 +684,16 @@ func (x *Exec) VerifyFunction(fn *ssa.Function, c *Contract) (res *VerifyResult)
 	}
 	var bind []*Value
 	for _, fv := range fn.FreeVars {
-		bind = append(bind, x.freshValue("fv_"+fv.Name(), fv.Type(), True))
+		v := x.freshValue("fv_"+fv.Name(), fv.Type(), True)
+		if v.K == KPtr {
+			// captured variables are cells that always exist
+			x.facts = append(x.facts, Neq(v.P.Base, x.null()))
+		}
+		bind = append(bind, v)
+	}
+	// input slices start at offset 0
+	for _, a := range append(append([]*Value{}, args...), bind...) {
+		x.assumeZeroOffsets(a)
 	}
 	// entry objects predate every allocation
 	x.useAxioms("alloc")
@@ -679,4 +715,75 @@ func (x *Exec) VerifyFunction(fn *ssa.Function, c *Contract) (res *VerifyResult)
 	x.rootArgs = args
 	x.execFunction(fn, st, args, bind, c, true, 0)
 	return res
+}
+
+// callSiteObligations: "calls <callee> P" clauses of the root contract must hold at every call of
+// the callee; the ghost flag called(<callee>) is set.
+func (x *Exec) callSiteObligations(fr *Frame, st *State, fn *ssa.Function, name string, args []*Value, pos token.Pos) {
+	if x.rootFrame == nil || x.rootFrame.contract == nil {
+		return
+	}
+	short := funcDisplayName(fn)
+	matches := func(callee string) bool {
+		return callee == name || callee == short || callee == fn.Name() || (fn.Pkg != nil && callee == fn.Pkg.Pkg.Name()+"."+short)
+	}
+	for _, cc := range x.rootFrame.contract.Calls {
+		if !matches(cc.Callee) {
+			continue
+		}
+		vars := map[string]*Value{}
+		root := x.rootFrame
+		for i, p := range root.fn.Params {
+			vars[p.Name()] = root.params[i]
+		}
+		// callee parameters (shadowing)
+		if ec, ok := x.db.Externs[name]; ok && len(ec.Params) > 0 {
+			for i, p := range ec.Params {
+				if i < len(args) {
+					vars[p] = args[i]
+				}
+			}
+		} else {
+			for i, p := range fn.Params {
+				if i < len(args) {
+					vars[p.Name()] = args[i]
+				}
+			}
+		}
+		env := &SpecEnv{x: x, vars: vars, cur: st, old: root.entry, pkg: x.pkgOfFn(root.fn)}
+		t := x.guardedEval(func() *Term { return env.evalBool(cc.C.E) }, root.contract, cc.C)
+		lbl := cc.C.Label
+		if lbl == "" {
+			lbl = shortName(cc.Callee)
+		}
+		x.oblige(root, st, "calls", "", lbl, t, pos, cc.C.Src)
+	}
+	// ghost flag
+	if x.calledCells != nil {
+		if c, ok := x.calledCells[name]; ok {
+			st.cells[c] = scalar(tBool, True)
+			x.cellsW[c] = true
+		} else if c, ok := x.calledCells[short]; ok {
+			st.cells[c] = scalar(tBool, True)
+			x.cellsW[c] = true
+		} else if c, ok := x.calledCells[fn.Name()]; ok {
+			st.cells[c] = scalar(tBool, True)
+			x.cellsW[c] = true
+		}
+	}
+}
+
+// assumeZeroOffsets: see offsetAssumption.
+func (x *Exec) assumeZeroOffsets(v *Value) {
+	switch v.K {
+	case KSlice:
+		if v.Off.Op != "int" {
+			x.facts = append(x.facts, Eq(v.Off, IntLit(0)))
+			x.trusted[offsetAssumption] = true
+		}
+	case KStruct, KTuple:
+		for _, f := range v.Fields {
+			x.assumeZeroOffsets(f)
+		}
+	}
 }
